@@ -42,10 +42,17 @@ def dotted(q):
     return out
 
 
-def project_scenario(s, src, extra_ops=(), parsed=False):
-    """s = {"files": [{"id","toks"}], "main"} as emitted by TLC (MC_Validate)."""
+def project_scenario(s, src, extra_ops=(), parsed=False, pieces_rng=None):
+    """s = {"files": [{"id","toks"}], "main"} as emitted by TLC (MC_Validate).
+    With pieces_rng the files are given to the trace spec as pieces, so that the validated tree is also compared with
+    the source (names, directions, codes, kinds as written)."""
     ops = [{"op": "new", "i": 1}]
     for f in s["files"]:
+        if pieces_rng is not None:
+            import docgen as D
+            pcs = D.layout(f["toks"], pieces_rng, mode="spaces")
+            ops.append({"op": "add", "i": 1, "id": f["id"], "text": D.text_of(pcs), "pieces": pcs, "parsed": True})
+            continue
         pieces = R.default_layout(f["toks"])
         op = {"op": "add", "i": 1, "id": f["id"], "text": R.text_of(pieces)}
         if parsed:
@@ -202,7 +209,7 @@ class ProjGen:
 
 def random_projects(rng, n, focus=""):
     g = ProjGen(rng, focus)
-    return [project_scenario(g.project(), "rnd-project") for _ in range(n)]
+    return [project_scenario(g.project(), "rnd-project", pieces_rng=rng) for _ in range(n)]
 
 
 # --------------------------------------------------------------------------------------
